@@ -2922,7 +2922,12 @@ class SQLCompiler(Compiled):
         if sep is None:
             sep = " "
         else:
-            sep = OPERATORS[clauselist.operator]
+            try:
+                sep = OPERATORS[clauselist.operator]
+            except KeyError as err:
+                raise exc.UnsupportedCompilationError(
+                    self, clauselist.operator
+                ) from err
 
         return self._generate_delimited_list(clauselist.clauses, sep, **kw)
 
@@ -3291,8 +3296,14 @@ class SQLCompiler(Compiled):
             if disp:
                 return disp(unary, unary.operator, **kw)
             else:
+                try:
+                    opstring = OPERATORS[unary.operator]
+                except KeyError as err:
+                    raise exc.UnsupportedCompilationError(
+                        self, unary.operator
+                    ) from err
                 return self._generate_generic_unary_operator(
-                    unary, OPERATORS[unary.operator], **kw
+                    unary, opstring, **kw
                 )
         elif unary.modifier:
             disp = self._get_operator_dispatch(
@@ -3301,8 +3312,14 @@ class SQLCompiler(Compiled):
             if disp:
                 return disp(unary, unary.modifier, **kw)
             else:
+                try:
+                    opstring = OPERATORS[unary.modifier]
+                except KeyError as err:
+                    raise exc.UnsupportedCompilationError(
+                        self, unary.modifier
+                    ) from err
                 return self._generate_generic_unary_modifier(
-                    unary, OPERATORS[unary.modifier], **kw
+                    unary, opstring, **kw
                 )
         else:
             raise exc.CompileError(
